@@ -607,6 +607,72 @@ def gen_rules(shard):
 
 
 # ---------------------------------------------------------------------------------------
+# call_order: what a key's chords are does not depend on which of them a cold process asks for first
+# ---------------------------------------------------------------------------------------
+import importlib
+from mingus.core import keys as _mkeys
+
+FIRST_QUESTIONS = ["sevenths", "V7", "tonic7", "to_chords_sevenths", "triads", "vii", "to_chords_triads", "determine_seventh"]
+
+
+def _cold_theory():
+    """cold start without naming private tables: re-execute the modules that may keep memo tables"""
+    importlib.reload(_mkeys)
+    importlib.reload(mchords)
+    importlib.reload(mprog)
+
+
+def run_call_order(case):
+    """case = [key, first question]: from a cold start ask that one thing first, then everything else."""
+    S = engine.S
+    key, first = case
+    T, V7 = H.triads(key), H.sevenths(key)
+    _cold_theory()
+    try:
+        if first == "sevenths":
+            mchords.sevenths(key)
+        elif first == "V7":
+            mchords.V7(key)
+        elif first == "tonic7":
+            mchords.tonic7(key)
+        elif first == "to_chords_sevenths":
+            mprog.to_chords(["ii7", "V7", "I7"], key)
+        elif first == "triads":
+            mchords.triads(key)
+        elif first == "vii":
+            mchords.vii(key)
+        elif first == "to_chords_triads":
+            mprog.to_chords(["I", "IV", "V"], key)
+        elif first == "determine_seventh":
+            mprog.determine(list(V7[4]), key, True)
+    except Exception as e:                                   # noqa
+        S.problem("first question %s in a cold process, key %r" % (first, key), "an answer", e)
+        return
+    site = " (cold process whose first question about %r was %s)" % (key, first)
+    ok, got = call("chords.triads(%r)%s" % (key, site), mchords.triads, key)
+    if ok:
+        expect_chords("chords.triads(%r)%s" % (key, site), got, T)
+    ok, got = call("chords.sevenths(%r)%s" % (key, site), mchords.sevenths, key)
+    if ok:
+        expect_chords("chords.sevenths(%r)%s" % (key, site), got, V7)
+    for i in range(7):
+        for name, want in ((H.FUNCTIONS[i], T[i]), (H.FUNCTIONS[i] + "7", V7[i]), (UPPER_ALIASES[i], T[i]), (UPPER_ALIASES[i] + "7", V7[i])):
+            fn = getattr(mchords, name, None)
+            if fn is None:
+                continue
+            ok, got = call("chords.%s(%r)%s" % (name, key, site), fn, key)
+            if ok:
+                expect_chords("chords.%s(%r)%s" % (name, key, site), [got], [want])
+    numerals = [UPPER_ALIASES[i] for i in range(7)] + [UPPER_ALIASES[i] + "7" for i in range(7)]
+    ok, got = call("progressions.to_chords(%r, %r)%s" % (numerals, key, site), mprog.to_chords, numerals, key)
+    if ok:
+        expect_chords("progressions.to_chords(all numerals, %r)%s" % (key, site), got, T + V7)
+    S.trans(32)
+    S.outcome((key, first))
+    S.count("call_orders_checked")
+
+
+# ---------------------------------------------------------------------------------------
 # substitute (general, recursive)
 # ---------------------------------------------------------------------------------------
 _SUBST = {"keys": MAJOR_KEYS, "suffixes": H.SUFFIXES}
@@ -670,6 +736,7 @@ def gen_substitute(shard):
 
 CLAUSES = {
     "diatonic": run_diatonic,
+    "call_order": run_call_order,
     "prefix": run_prefix,
     "suffix": run_suffix,
     "unknown": run_unknown,
@@ -687,6 +754,8 @@ def explore(ctx):
     ctx.bound("suffixes", len(H.SUFFIXES))
     if ctx.want("diatonic"):
         ctx.serial("diatonic", [[k] for k in P.KEYS30])
+    if ctx.want("call_order"):
+        ctx.product("call_order", list(P.KEYS30), lambda k: ([k, q] for q in FIRST_QUESTIONS if not (q == "determine_seventh" and k[0].islower())))
     if ctx.want("prefix"):
         _PREFIX["kmax"] = ctx.pick(3, 6)
         ctx.bound("prefix_range", [-_PREFIX["kmax"], _PREFIX["kmax"]])
